@@ -35,6 +35,7 @@ pub fn dump_logs(args: &[String], seed: u64) -> i32 {
     };
     let cfg = PoolConfig { workers, chunk: 8, run_budget: Duration::from_secs(120), deadline: None, thorough: tier == Tier::Thorough, fresh_per_spec: false };
     let mut planner = Planner::new(seed, &prop, tier, hooks);
+    planner.pre_pool = corpus.k0.iter().map(|e| e.text.clone()).collect();
     let mut census_entries: Vec<&Entry> = corpus.g.iter().collect();
     census_entries.extend(corpus.k0.iter());
     census_entries.extend(corpus.finite.iter());
@@ -164,6 +165,7 @@ pub fn scan(args: &[String]) -> i32 {
             cxf: vec![],
             expect: Expect::Unknown,
             hist: 0,
+            pre: vec![],
             k0: 0,
             k1: 0,
             steer: vec![],
